@@ -711,6 +711,16 @@ func (rw *rewriter) atomicIn(e ast.Expr) int {
 					n++
 				}
 			}
+			// the methods of sync.Map are atomic operations on the map (Range, whose order is not specified, is refused below)
+			if o := rw.info.Uses[id]; o != nil && o.Pkg() != nil && o.Pkg().Path() == "sync" {
+				if fn, isFunc := o.(*types.Func); isFunc {
+					if sig, ok := fn.Type().(*types.Signature); ok && sig.Recv() != nil {
+						if ok, _ := namedIs(sig.Recv().Type(), "sync", "Map"); ok {
+							n++
+						}
+					}
+				}
+			}
 		}
 		return true
 	})
@@ -1396,10 +1406,11 @@ func (rw *rewriter) callExpr(n *ast.CallExpr) ast.Expr {
 				rw.st.Mutex++
 				return rw.call("OnceDo", rw.addr(se.X, ptr), rw.expr(n.Args[0]))
 			}
-			for _, other := range []string{"Cond", "Map"} {
-				if ok, _ := namedIs(recvT, "sync", other); ok {
-					fatal("%s: sync.%s is not modelled", rw.pos(n), other)
-				}
+			if ok, _ := namedIs(recvT, "sync", "Map"); ok && se.Sel.Name == "Range" {
+				fatal("%s: sync.Map.Range is not modelled (its order is not specified)", rw.pos(n))
+			}
+			if ok, _ := namedIs(recvT, "sync", "Cond"); ok {
+				fatal("%s: sync.Cond is not modelled", rw.pos(n))
 			}
 		}
 	}
